@@ -41,6 +41,7 @@ static int c11_g11d(toks_t *t)
   memset(&j, 0, sizeof(j)); memset(g, 0, sizeof(g));
   j.ss = (int)tl(t, 1); j.w = (int)tl(t, 2); j.h = (int)tl(t, 3); j.prec = prec; j.seed = (unsigned long long)tll(t, 4); j.kind = 0; j.mode = 1; j.nc = j.ss == 3 ? 1 : 3;
   if (!c03_build(&j, &jp, &jn, &err)) { printf("R err build %d\n", err); return 1; }
+  if (getenv("C11_DUMP")) { FILE *fp = fopen(getenv("C11_DUMP"), "wb"); fwrite(jp, 1, jn, fp); fclose(fp); }
   f = prec == 8 ? sf[sfi % nsf] : sf[8];
   if (j.nc == 1 && pf == TJPF_CMYK) pf = TJPF_GRAY;
   if (pf == TJPF_CMYK) pf = TJPF_RGB;
@@ -58,6 +59,7 @@ static int c11_g11d(toks_t *t)
     tj3SetScalingFactor(hd, f);
     if (crop && prec == 8 && tj3SetCroppingRegion(hd, cr) == 0) { ow = cr.w ? cr.w : sw - cr.x; oh = cr.h ? cr.h : sh - cr.y; }
     rowb = (size_t)ow * ps * ssz; pitch = rowb + (size_t)pad * ssz; doc = pitch * (size_t)(oh - 1) + rowb;
+    if (getenv("C11_DEBUG")) fprintf(stderr, "DBG sw%d sh%d crop %d,%d,%d,%d ow%d oh%d pf%d f%d/%d jn%lu\n", sw, sh, cr.x, cr.y, cr.w, cr.h, ow, oh, pf, f.num, f.denom, jn);
     if (!c11_alloc(&g[run], doc, fe)) INTERNAL("mmap");
     memset(g[run].buf, fill[run], doc);
     if (prec <= 8) rc[run] = tj3Decompress8(hd, jp, jn, g[run].buf, (int)(pitch / ssz), pf);
